@@ -187,6 +187,12 @@ example : ∃ d, WF exEval ∧ opSave exEval none = .ok d :=
 theorem C02_opSave_tag_contents_nodup (c : Collection) (dir : Option PPath) (d : Doc) (hwf : WF c)
     (hs : opSave c dir = .ok d) : ((lst d.tags).map (fun t => (t.key, t.value))).Nodup :=
   C02_tag_contents_nodup c dir d ((C02_opSave_refines c dir hwf) ▸ hs)
+
+/-- the operational tag adapter writes exactly the reachable (label, value) pairs (no joined text key) -/
+theorem C02_opSave_tag_pairs_exact (c : Collection) (dir : Option PPath) (d : Doc) (hwf : WF c)
+    (hs : opSave c dir = .ok d) (kv : String × String) :
+    kv ∈ (lst d.tags).map (fun t => (t.key, t.value)) ↔ kv ∈ (tagsOf c.trav).map (fun t => (t.key, t.value)) :=
+  C02_tag_pairs_exact c dir d ((C02_opSave_refines c dir hwf) ▸ hs) kv
 example : ∃ d, WF exEval ∧ opSave exEval none = .ok d :=
   ⟨_, wf_exEval, (C02_opSave_refines _ _ wf_exEval).trans (save_total _)⟩
 
